@@ -1,6 +1,7 @@
 (* Runner for the dispatch model (C17).
    Input lines (tab separated):
      A <builtin 0|1> <tree> <hexname> <observed>     observed: H<id> | B | N
+     Q <builtin 0|1> <tree> <hexname,hexname,...> <observed>   one batch of calls: outcome per member, in order
      M <tree> <observed>                              observed: names "hex,hex,..." | "none" | "empty"
      I <tree> <observed>                              observed: methods listed by rpc.serverInfo
    tree ::= m[ hexname=id ; ... ] | o[ ... ] | s[ hexname:tree ; ... ]   *)
@@ -59,6 +60,13 @@ let () =
         | Some Dispatch.TBuiltinInfo -> "B"
         | Some (Dispatch.TUser h) -> Printf.sprintf "H%d" (int_of_nat h) in
       report_case ln ~expected:exp ~got:obs
+    | ["Q"; b; t; ns; obs] ->
+      let tree = parse_tree t in
+      let one n = match Dispatch.server_assign (b = "1") tree (bytes_of_hexfield n) with
+        | None -> "N"
+        | Some Dispatch.TBuiltinInfo -> "B"
+        | Some (Dispatch.TUser h) -> Printf.sprintf "H%d" (int_of_nat h) in
+      report_case ln ~expected:(String.concat "," (List.map one (split_on ',' ns))) ~got:obs
     | ["M"; t; obs] ->
       let exp = match Dispatch.names (parse_tree t) with
         | None -> "none"
